@@ -145,3 +145,36 @@ Proof.
   - vm_compute in Hin. destruct Hin as [Hin|[]]. discriminate.
   - vm_compute in Hin. destruct Hin as [Hin|[]]. subst i. inversion Hd as [d e Hin'|d i e Hin' Hd']; subst; vm_compute in Hin'; destruct Hin'.
 Qed.
+
+(* ---- the stuck exit ("stuck [this is a bug]": wanted edges are left, nothing runs, nothing can be
+   started, nothing failed).  By C06_never_stuck it is not reachable from a graph with an acyclic producer
+   relation; the real tree reaches it when a dependency cycle escapes the scan (C17 finding
+   dyndep-output-cycle-not-named).  Since "fix: exit with a failure status when the build loop is stuck"
+   that return carries ExitFailure, from whatever state it is taken ... ---- *)
+Theorem C05_stuck_exit_status : forall g cfg loads s code s',
+  step g cfg loads s (EvExit code MStuck) = Some s' -> code = exit_failure.
+Proof. exact stuck_exit_status. Qed.
+Print Assumptions C05_stuck_exit_status.
+
+(* ... e.g. from the initial state of the cyclic graph [cy_graph] (PlanDefs.v), which is the plan of that
+   C17 finding *)
+Example C05_stuck_exit_status_nonvacuous :
+  wf_graph_b cy_graph (fun e => e) = false /\
+  is_some (run cy_graph cy_cfg no_loads [] cy_snap [EvExit exit_failure MStuck]) = true /\
+  is_some (run cy_graph cy_cfg no_loads [] cy_snap [EvExit 0 MStuck]) = false.
+Proof. split; [|split]; vm_compute; reflexivity. Qed.
+
+(* before that fix ([step_res_old]) the stuck exit returned exit_code_, which is ExitSuccess there:
+   "a stuck exit never has status success" fails for the old code *)
+Definition C05_stuck_exit_status_old : Prop :=
+  forall g cfg loads s code s', step_res_old g cfg loads s (EvExit code MStuck) = Ok s' -> code <> 0.
+Theorem C05_stuck_exit_status_old_refuted : ~ C05_stuck_exit_status_old.
+Proof.
+  intros H.
+  destruct (step_res_old cy_graph cy_cfg no_loads (init_state cy_graph cy_cfg [] cy_snap) (EvExit 0 MStuck))
+    as [s'| |] eqn:E.
+  - apply (H _ _ _ _ 0 s' E). reflexivity.
+  - pose proof cy_old_stuck_status_success as W. rewrite E in W. discriminate.
+  - pose proof cy_old_stuck_status_success as W. rewrite E in W. discriminate.
+Qed.
+Print Assumptions C05_stuck_exit_status_old_refuted.
